@@ -190,3 +190,20 @@ def compressed_faults(vec, rng):
         pp[lenoff:lenoff + 4] = struct.pack('<I', 1 << 20)
         yield f'z{i}:bomb1M', mk(bytes(pp), bomb)
         yield f'z{i}:valid-empty-stream', mk(bytes(pp[:lenoff]) + struct.pack('<I', 0) + bytes(pp[lenoff + 4:]), zlib.compress(b''))
+
+
+def string_faults(vec):
+    """C03(b): C strings at and beyond the 255/256 byte limit, with and without their terminator,
+    followed by the rest of the message (or by nothing)."""
+    hdr = vec['hdr']
+    frame = bytes.fromhex(vec['hex'])
+    for row in vec['fmap']:
+        if row[4] != 'cstring':
+            continue
+        off, w = row[1], row[2]
+        before, after = frame[hdr:off], frame[off + w:]
+        for L in (255, 256, 257, 300):
+            s_ = bytes(0x41 + (i % 26) for i in range(L))
+            yield f'str@{row[0]}={L}+nul', reframe(vec, before + s_ + b'\0' + after)
+            yield f'str@{row[0]}={L}-nul', reframe(vec, before + s_ + after)
+            yield f'str@{row[0]}={L}-nul-end', reframe(vec, before + s_)
